@@ -253,7 +253,7 @@ def run(ctx):
     ss, maxp = scripts(ctx)
     ctx.exhaustive = True
     ctx.rule = ('every page-size sequence over {0,1,2} with <= %d pages (exhaustive) + random sequences of up to 8 pages over {0..3} + boundary '
-                'scripts, scripts with page requests that fail with a rethrown read timeout at every position / at random, scripts with a speculative execution firing inside a page fetch at every position / at random, half of the statements with a serial consistency level (requests observed in the encoded body), continuous paging results on DSE_V1/DSE_V2 for every script with <= 3 pages, each x 9 named access patterns (step iteration, list(), [i], ==, manual fetch loop, partial-then-list, '
+                'scripts, scripts with page requests that fail with a rethrown read timeout at every position / at random, scripts with a speculative execution firing inside a page fetch at every position / at random, half of the statements with a serial consistency level (requests observed in the encoded body), continuous paging results on DSE_V1/DSE_V2 for every script with <= 3 pages, callback-driven paging (add_callbacks + start_fetching_next_page) with the first answer before / after registration, each x 9 named access patterns (step iteration, list(), [i], ==, manual fetch loop, partial-then-list, '
                 'fetch while iterating, one/bool) + random mixed call sequences, each with the response delivered before / while the caller '
                 'waits; non-trivial = distinct (script, ops) with >= 2 pages' % maxp)
     cases, meta = [], []
@@ -297,6 +297,49 @@ def run(ctx):
         oracle(ctx, name, pages, ops, eager, res, mode)
         cases.append(P.g_case(pages, ops, res, cont))
         meta.append((name, pages, ops, eager, res, mode))
+    # callback-driven paging (documented pattern), first answer processed before / after add_callbacks()
+    acases, ameta = [], []
+    for sizes in ss:
+        script = mk_pages(sizes)
+        if script[0] == P.FAIL:
+            continue
+        for early in (True, False):
+            mode = {'serial': True} if ctx.rng.random() < 0.5 else {}
+            if P.SPEC in script:
+                mode['late'] = True
+            res = P.run_async(script, early, mode)
+            pages_ = P.script_pages(script)
+            allr = [r for p in pages_ for r in p]
+            nf = sum(1 for x in script if x == P.FAIL)
+            ctx.case(['async', script, early, mode], nontrivial=len(pages_) >= 2,
+                     sample={'pattern': 'add_callbacks(handle_page) + start_fetching_next_page', 'pages': script, 'first_answer_before_add_callbacks': early,
+                             'rows': res['rows'], 'sent_paging_states': res['sent'], 'finished': res['finished']})
+            ctx.count('pattern', 'async-callbacks')
+            case = {'async': True, 'pages': script, 'early': early, 'mode': mode}
+            exp_req = P.expected_requests(script)
+            what = None
+            if res['sent'] != exp_req[:len(res['sent'])] or res['bogus']:
+                what = ('async.requests', 'requests carried %r, expected a prefix of %r' % (res['sent'], exp_req), 'C18_stops')
+            elif nf == 0 and res['rows'] != allr:
+                what = ('async.rows-ne-iter', 'the page handler was given %r, iteration yields %r' % (res['rows'], allr), 'C18_async_eq_iter')
+            elif nf == 0 and (not res['finished'] or res['sent'] != exp_req):
+                what = ('async.handler-never-finishes', 'finished=%r after requests %r (expected %r): a delivered page was not handed to the registered callback' % (
+                    res['finished'], res['sent'], exp_req), 'C18_async_eq_iter')
+            elif nf and (res['rows'] != allr[:len(res['rows'])] or res['error'] is None):
+                what = ('async.rows-ne-iter', 'with a failing page request the handler got %r and error %r' % (res['rows'], res['error']), 'C18_async_eq_iter')
+            if what:
+                ctx.violation(what[0], 'callback-driven paging, pages=%r, first answer %s add_callbacks(): %s' % (
+                    script, 'before' if early else 'after', what[1]), case=case, expected=allr, actual=res, theorem=what[2], kind='history')
+            acases.append(P.g_async(script, early, res))
+            ameta.append((script, early, mode, res))
+    try:
+        bada = ctx.coq_filter(['Paging'], '(fun b : bool => b)', acases, shard=400)
+        for i in bada[:5]:
+            script, early, mode, res = ameta[i]
+            ctx.disagreement('model-vs-impl.async', 'callback-driven paging differs from Model/Paging.v async_pages at pages=%r early=%r: %r' % (script, early, res),
+                             case={'async': True, 'pages': script, 'early': early, 'mode': mode}, actual=res)
+    except RuntimeError as e:
+        ctx.proof_broken.append(('correspondence:Paging.async', str(e)[-600:]))
     try:
         bad = ctx.coq_filter(['Paging'], '(fun b : bool => b)', cases, shard=250)
         for i in bad[:10]:
@@ -327,6 +370,15 @@ def run(ctx):
 
 def replay(ctx, rp):
     case = rp.get('case') or {}
+    if case.get('async'):
+        res = P.run_async(case['pages'], case['early'], case.get('mode'))
+        pages_ = P.script_pages(case['pages'])
+        allr = [r for p in pages_ for r in p]
+        nf = sum(1 for x in case['pages'] if x == P.FAIL)
+        print('replay callback-driven paging pages=%r early=%r -> %r' % (case['pages'], case['early'], res))
+        bad = (nf == 0 and (res['rows'] != allr or not res['finished'])) or res['sent'] != P.expected_requests(case['pages'])[:len(res['sent'])]
+        print(('VIOLATION property=C18 replay=%s' % ctx.replay_path) if bad else 'not reproduced')
+        return 1 if bad else 0
     if not case.get('pages'):
         print('nothing to replay: %s' % rp.get('theorem'))
         return 1
